@@ -13,8 +13,6 @@ Variable rearrange : list record -> list record.
 Variable Hip_rt : forall a, wf_bytes a -> length a = 16%nat -> o_parse_ip o (o_print_ip o a) = Some a.
 Variable Hip_nil : o_parse_ip o [] = None.
 Variable Hip_nosep : forall a, contains 44 (o_print_ip o a) = false.
-Variable Hlow_dot : forall a b, to_lower o (a ++ 46 :: b) = to_lower o a ++ 46 :: to_lower o b.
-Variable Hlow_nodot : forall a, contains 46 a = false -> contains 46 (to_lower o a) = false.
 (* the compiler's default serial is a uint32; the preprocessor runs with the same serial or with none *)
 Variable Hser : serial <= max32.
 Variable Hps : pserial = serial \/ pserial = 0.
@@ -107,7 +105,7 @@ Proof.
   destruct l as [|c t]; [discriminate Ig|]. cbn [nth] in *. cbn [is_ignored] in Ig.
   assert (Sk : compile_skips (c :: t) = false).
   { unfold compile_skips. cbn [nth]. rewrite Ig. destruct (Nat.ltb_spec (length (c :: t)) 2); [lia|reflexivity]. }
-  assert (CL : compile_line o v2 serial (c :: t) = Ok (convert o v2 true r, ns)).
+  assert (CL : compile_line o v2 serial (c :: t) = Ok (convert v2 true r, ns)).
   { unfold compile_line. rewrite trim_id by (cbn [nth]; assumption). rewrite Sk, P. cbn [rbind]. rewrite A. reflexivity. }
   unfold pre_line. cbn [is_ignored nth]. rewrite Ig.
   destruct (N.eqb_spec c 37) as [->|N37].
@@ -129,7 +127,7 @@ Proof.
         rewrite !orb_false_r in Fz. rewrite Fz. reflexivity. }
       assert (PN : parse_line o serial (marshal o rp) = Ok (norm serial rs)).
       { unfold rp. rewrite (parse_soa o serial) by assumption. unfold rs. cbn [norm]. rewrite ser_fix by assumption. reflexivity. }
-      exists (convert o v2 true rs), [], [marshal o rp]. rewrite CL, (Ps pserial). cbn [rbind].
+      exists (convert v2 true rs), [], [marshal o rp]. rewrite CL, (Ps pserial). cbn [rbind].
       split; [reflexivity|]. split; [reflexivity|].
       apply compile_go_single. unfold compile_line.
       assert (Sp' : nth 0 (marshal o rp) 0 <> 32) by (unfold rp, marshal, line_of; cbn [nth]; lia).
@@ -139,10 +137,10 @@ Proof.
         rewrite orb_false_r. apply Nat.ltb_ge. unfold rp, marshal. apply line_of_len. }
       rewrite Sk', PN. cbn [rbind]. unfold rs at 1. cbn [norm acc_update rbind].
       fold (norm serial rs).
-      rewrite (convert_norm o serial Hlow_dot Hlow_nodot) by assumption. reflexivity.
+      rewrite (convert_norm o serial) by assumption. reflexivity.
     + (* any other line is written as it is *)
       specialize (An N37). subst ns.
-      exists (convert o v2 true r), [], [c :: t]. rewrite CL. repeat split; try reflexivity.
+      exists (convert v2 true r), [], [c :: t]. rewrite CL. repeat split; try reflexivity.
       apply compile_go_single. assumption.
 Qed.
 
@@ -174,14 +172,14 @@ Qed.
 
 Lemma compile_points : forall pts,
   (forall r, In r pts -> (exists lmap ip ml null locid, r = RRangePoint lmap ip ml null locid) /\ wf_recordb o r = true) ->
-  compile_go o v2 serial (map (marshal o) pts) = Ok (flat_map (convert o v2 true) pts, []).
+  compile_go o v2 serial (map (marshal o) pts) = Ok (flat_map (convert v2 true) pts, []).
 Proof.
   induction pts as [|r pts IH]; intros H; [reflexivity|].
   destruct (H r (or_introl eq_refl)) as [(lmap & ip & ml & null & locid & ->) W].
   cbn [map compile_go flat_map].
   rewrite IH by (intros; apply H; right; assumption).
   assert (CL : compile_line o v2 serial (marshal o (RRangePoint lmap ip ml null locid)) =
-               Ok (convert o v2 true (RRangePoint lmap ip ml null locid), [])).
+               Ok (convert v2 true (RRangePoint lmap ip ml null locid), [])).
   { unfold compile_line.
     assert (Sp : nth 0 (marshal o (RRangePoint lmap ip ml null locid)) 0 <> 32) by (unfold marshal, line_of; cbn [nth]; lia).
     rewrite trim_id by assumption.
@@ -206,20 +204,41 @@ Theorem preproc_same_db : forall f, wf_file f ->
                    Permutation kvs' kvs.
 Proof.
   intros f Wf. destruct (file_steps f Wf) as (K & N & B & C1 & P1 & C2).
-  exists B, N, (K ++ flat_map (convert o v2 true) (rearrange N) ++ [feature_kv v2]).
+  exists B, N, (K ++ flat_map (convert v2 true) (rearrange N) ++ [feature_kv v2]).
   split; [assumption|]. split; [unfold preprocess; rewrite P1; reflexivity|].
   split; [unfold compile; rewrite C1; reflexivity|].
   intros pts Pm.
   assert (Hp : forall r, In r pts ->
             (exists lmap ip ml null locid, r = RRangePoint lmap ip ml null locid) /\ wf_recordb o r = true).
   { intros r Hr. apply (Hre_rp N). eapply Permutation_in; eassumption. }
-  exists (K ++ flat_map (convert o v2 true) pts ++ [feature_kv v2]). split.
+  exists (K ++ flat_map (convert v2 true) pts ++ [feature_kv v2]). split.
   - unfold compile. rewrite (compile_go_app B (map (marshal o) pts) K [] _ [] C2 (compile_points pts Hp)).
     cbn [rbind fst snd app]. rewrite Hre_nil. cbn [flat_map app]. rewrite <- app_assoc. reflexivity.
   - apply Permutation_app_head. apply Permutation_app_tail. apply Permutation_flat_map. assumption.
 Qed.
 
 End Pre.
+
+(* the statement with the library premises first (Properties/C09.v) *)
+Lemma preproc_stmt : forall o,
+  (forall a, wf_bytes a -> length a = 16%nat -> o_parse_ip o (o_print_ip o a) = Some a) ->
+  o_parse_ip o [] = None ->
+  (forall a, contains 44 (o_print_ip o a) = false) ->
+  forall v2 serial pserial rearrange,
+  serial <= max32 ->
+  pserial = serial \/ pserial = 0 ->
+  rearrange [] = [] ->
+  (forall ns r, In r (rearrange ns) ->
+     (exists lmap ip ml null locid, r = RRangePoint lmap ip ml null locid) /\ wf_recordb o r = true) ->
+  forall f, wf_file o serial f ->
+  exists body nets kvs,
+    pre_go o pserial f = Ok (body, nets) /\
+    preprocess o rearrange pserial f = Ok (body ++ map (marshal o) (rearrange nets)) /\
+    compile o rearrange v2 serial f = Ok kvs /\
+    forall pts, Permutation pts (rearrange nets) ->
+      exists kvs', compile o rearrange v2 serial (body ++ map (marshal o) pts) = Ok kvs' /\
+                   Permutation kvs' kvs.
+Proof. intros o H1 H2 H3 v2 serial pserial rearrange. exact (preproc_same_db o v2 serial pserial rearrange H1 H2 H3). Qed.
 
 (* ------------------------------------------------------------------ the finding at file level *)
 (* the two-line file of the F12 witness: preprocessing (serial 7) changes the compiled SOA value *)
@@ -248,8 +267,7 @@ Definition o_fx : toracles :=
        (fun s => if bytes_eqb s fx_ip_text then Some fx_ip else if bytes_eqb s fx_ip2_text then Some fx_ip2 else None)
        (fun a => if bytes_eqb a fx_ip then fx_ip_text else if bytes_eqb a fx_ip2 then fx_ip2_text else [])
        (fun s => if bytes_eqb s fx_net_text then Some ([10;0;0;0], 8, 32) else None)
-       (fun a ones => if bytes_eqb a fx_ip && (ones =? 104) then fx_net_text else [])
-       (fun r => r).
+       (fun a ones => if bytes_eqb a fx_ip && (ones =? 104) then fx_net_text else []).
 Definition fx_rearrange (ns : list record) : list record :=
   match ns with
   | [] => []
